@@ -57,6 +57,7 @@ fn op_kind(op: &Op) -> &'static str {
         Op::RemoveDiscountPrice { .. } => "remove_discount_price",
         Op::SudoParams { .. } => "sudo_params",
         Op::WlAddMember { .. } => "wl_add_member",
+        Op::Migrate { .. } => "migrate",
     }
 }
 
@@ -236,6 +237,8 @@ fn gen_case(rng: &mut Rng, variant: usize, thorough: bool) -> Case {
     ops.push(Op::MintFor { who: CREATOR.into(), token_id: 1, recipient: BUYERS[0].into(), funds: vec![] });
     ops.push(Op::Shuffle { who: STRANGER.into(), funds: native(500) });
     ops.push(Op::Purge { who: STRANGER.into() });
+    // migrations of the minter at random places of the history (~2.5 % of the operations)
+    sprinkle_migrates(rng, &mut ops, 25);
     Case { variant, updatable: rng.chance(1, 4), num_tokens, pal, price, ops }
 }
 
@@ -316,6 +319,60 @@ fn corpus() -> Vec<Case> {
                 }
                 o
             },
+        });
+        // migrations inside the sale: after mints, after a shuffle, at sell-out, after the purge,
+        // by the admin (old / current / newer / unparsable stored version, foreign name) and by a stranger
+        let mig = |who: &str, stored: Option<(&str, &str)>| Op::Migrate { who: who.into(), stored: stored.map(|(n, v)| (n.to_string(), v.to_string())) };
+        v.push(Case {
+            variant,
+            updatable: false,
+            num_tokens: 4,
+            pal: 2,
+            price: 100,
+            ops: vec![
+                mig(CREATOR, Some(("@own", "3.8.9"))),
+                Op::At { secs: 200, nanos: 0 },
+                Op::Mint { who: BUYERS[0].into(), funds: native(100) },
+                Op::MintFor { who: CREATOR.into(), token_id: 3, recipient: BUYERS[1].into(), funds: vec![] },
+                mig(CREATOR, Some(("@own", "3.8.9"))),
+                mig(CREATOR, None),
+                Op::Mint { who: BUYERS[0].into(), funds: native(100) },
+                Op::Mint { who: BUYERS[0].into(), funds: native(100) },           // at the per-address limit
+                mig(STRANGER, Some(("@own", "3.9.0"))),
+                mig(CREATOR, Some(("@own", "3.9.0"))),
+                Op::Mint { who: BUYERS[0].into(), funds: native(100) },           // still at the limit
+                Op::Shuffle { who: STRANGER.into(), funds: native(500) },
+                mig(CREATOR, Some(("@own", "99.0.0"))),
+                mig(CREATOR, Some(("crates.io:something-else", "1.0.0"))),
+                mig(CREATOR, Some(("@own", "abc"))),
+                Op::MintTo { who: CREATOR.into(), recipient: BUYERS[2].into(), funds: vec![] },
+                mig(CREATOR, Some(("@own", "3.15.0"))),
+                Op::MintTo { who: CREATOR.into(), recipient: BUYERS[2].into(), funds: vec![] },   // nothing left
+                Op::Mint { who: BUYERS[1].into(), funds: native(100) },
+                Op::Purge { who: STRANGER.into() },
+                mig(CREATOR, Some(("@own", "2.0.0"))),
+                Op::Mint { who: BUYERS[1].into(), funds: native(100) },
+                Op::MintFor { who: CREATOR.into(), token_id: 1, recipient: BUYERS[0].into(), funds: vec![] },
+                Op::BurnRemaining { who: CREATOR.into() },
+            ],
+        });
+        // burn-remaining, then a migration, then nothing mints
+        v.push(Case {
+            variant,
+            updatable: false,
+            num_tokens: 5,
+            pal: 3,
+            price: 100,
+            ops: vec![
+                Op::At { secs: 200, nanos: 0 },
+                Op::Mint { who: BUYERS[0].into(), funds: native(100) },
+                Op::BurnRemaining { who: CREATOR.into() },
+                mig(CREATOR, Some(("@own", "3.8.0"))),
+                Op::Mint { who: BUYERS[0].into(), funds: native(100) },
+                Op::MintTo { who: CREATOR.into(), recipient: BUYERS[2].into(), funds: vec![] },
+                Op::MintFor { who: CREATOR.into(), token_id: 3, recipient: BUYERS[0].into(), funds: vec![] },
+                Op::Shuffle { who: STRANGER.into(), funds: native(500) },
+            ],
         });
     }
     v
@@ -680,6 +737,36 @@ fn oe_corpus() -> Vec<OeCase> {
                 OeOp::BurnRemaining { who: CREATOR.into() },
             ],
         });
+        // (a') migrations inside the sale: after mints, at the cap, after the purge / burn
+        {
+            let omig = |who: &str, stored: Option<(&str, &str)>| OeOp::Migrate { who: who.into(), stored: stored.map(|(n, v)| (n.to_string(), v.to_string())) };
+            let mut cfg = OeCfg::basic(variant);
+            cfg.num_tokens = Some(3);
+            v.push(OeCase::Oe {
+                cfg,
+                ops: vec![
+                    omig(CREATOR, Some(("@own", "3.8.9"))),
+                    OeOp::MintTo { who: CREATOR.into(), recipient: BUYERS[1].into(), funds: nat(40) },
+                    OeOp::At { secs: 3000, nanos: 0 },
+                    OeOp::Mint { who: BUYERS[0].into(), funds: nat(100) },
+                    omig(CREATOR, Some(("@own", "3.9.0"))),
+                    omig(STRANGER, Some(("@own", "3.0.0"))),
+                    omig(CREATOR, None),
+                    OeOp::Mint { who: BUYERS[0].into(), funds: nat(100) },
+                    omig(CREATOR, Some(("@own", "99.0.0"))),
+                    omig(CREATOR, Some(("crates.io:something-else", "1.0.0"))),
+                    omig(CREATOR, Some(("@own", "abc"))),
+                    omig(CREATOR, Some(("@own", "3.15.9"))),
+                    OeOp::Mint { who: BUYERS[2].into(), funds: nat(100) },      // cap reached
+                    OeOp::MintTo { who: CREATOR.into(), recipient: BUYERS[1].into(), funds: nat(40) },
+                    OeOp::At { secs: 5000, nanos: 1 },
+                    OeOp::Purge { who: STRANGER.into() },
+                    omig(CREATOR, Some(("@own", "1.0.0"))),
+                    OeOp::Mint { who: BUYERS[2].into(), funds: nat(100) },
+                    OeOp::BurnRemaining { who: CREATOR.into() },
+                ],
+            });
+        }
         // (b) end-time boundary on Mint, MintTo, UpdateMintPrice, UpdateEndTime, BurnRemaining, Purge
         let mut cfg = OeCfg::basic(variant);
         cfg.num_tokens = Some(6);
@@ -1088,6 +1175,7 @@ fn gen_oe_case(rng: &mut Rng, variant: usize, thorough: bool) -> OeCase {
     ops.push(OeOp::MintTo { who: CREATOR.into(), recipient: BUYERS[0].into(), funds: fund(air) });
     ops.push(OeOp::Purge { who: STRANGER.into() });
     drop(fund);
+    sprinkle_oe_migrates(rng, &mut ops, 25);
     OeCase::Oe { cfg, ops }
 }
 
